@@ -134,7 +134,13 @@ func (sc *ArshalMarshal) plan(t *core.Tape, env *Env) *MarshalPlan {
 		if adv && bs.Chance(1, 4) {
 			p.nBad++
 			if isText {
-				switch bs.Draw(5) {
+				switch bs.Draw(8) {
+				case 5:
+					b.Kind = peers.BZero
+				case 6:
+					b.Kind = peers.BTwo
+				case 7:
+					b.Kind = peers.BOpen
 				case 0:
 					b.Kind = peers.BErr
 				case 1:
